@@ -6,10 +6,13 @@ pub mod c03;
 pub mod c04;
 pub mod c05;
 pub mod c07;
+pub mod c08;
+pub mod c14;
+pub mod c17;
 pub mod c16;
 pub mod tzchild;
 
-pub const ALL: &[&str] = &["C01", "C02", "C03", "C04", "C05", "C07", "C16"];
+pub const ALL: &[&str] = &["C01", "C02", "C03", "C04", "C05", "C07", "C16", "C08"];
 
 pub fn run(ctx: &Ctx) -> Option<Outcome> {
     match ctx.prop.as_str() {
@@ -20,6 +23,9 @@ pub fn run(ctx: &Ctx) -> Option<Outcome> {
         "C05" => Some(c05::run(ctx)),
         "C07" => Some(c07::run(ctx)),
         "C16" => Some(c16::run(ctx)),
+        "C17" => Some(c17::run(ctx)),
+        "C14" => Some(c14::run(ctx)),
+        "C08" => Some(c08::run(ctx)),
         _ => None,
     }
 }
